@@ -55,6 +55,15 @@ def run(tier):
         ("reuse-cos", "u = 0\nc = 0\nx = 0\nwhile true:\n    u = Uniform(0, 1)\n    c = Cos(u)\n    x = x + c*u\nend\n", [[["x", 1]]]),
         ("reuse-c-bernoulli", "c = 0\nu = 1\nx = 0\nwhile true:\n    c = Bernoulli(1/2)\n    u = u + c\n    x = x + c*u\nend\n", [[["x", 1]], [["c", 1], ["u", 1]]]),
     ]
+    # the same draw written with a named constant whose value differs between the two programs (objects shared between analyses
+    # would carry the folded constant over)
+    for sv in ("1", "4"):
+        jobs.append({"key": f"reuse-truncnormal-const-{sv}",
+                     "text": f"s = {sv}\nt = 0\nx = 0\nwhile true:\n    t = TruncNormal(0, s, 0, 1)\n    x = x + t\nend\n",
+                     "goals": [[["x", 1]], [["t", 2]]], "subs": {}, "nmax": 2, "settings": {}})
+        jobs.append({"key": f"reuse-normal-const-{sv}",
+                     "text": f"s = {sv}\nt = 0\nx = 0\nwhile true:\n    t = Normal(s, s)\n    x = x + t**2\nend\n",
+                     "goals": [[["x", 1]], [["t", 2]]], "subs": {}, "nmax": 2, "settings": {}})
     for key, text, goals in reuse:
         for flag in (True, False):
             jobs.append({"key": f"{key}-{flag}", "text": text, "goals": goals, "subs": {}, "nmax": 3,
@@ -147,6 +156,11 @@ def run(tier):
         "c = 1\ns = 0\nwhile c == 1:\n    c = Bernoulli(3/4)\n    s = s + 3\nend\n",
         "c = 0\ns = 1\nwhile c < 2:\n    c = c + 1 {1/2} c\n    s = s + c\nend\n",
     ]
+    const_texts = [f"s = {sv}\nt = 0\nx = 0\nwhile true:\n    t = TruncNormal(0, s, 0, 1)\n    x = x + t\nend\n" for sv in ("1", "4", "2")]
+    cli_groups.append([(f"truncconst{i}", t, None) for i, t in enumerate(const_texts)])
+    multi_tasks.append({"fn": "harness.tasks.analyze:cli_multi", "args": {"texts": const_texts, "goal_strs": ["E(x)", "E(t**2)"], "at_n": 2}})
+    single_tasks += [{"fn": "harness.tasks.analyze:cli_multi", "args": {"texts": [t], "goal_strs": ["E(x)", "E(t**2)"], "at_n": 2}}
+                     for t in const_texts]
     al_goals = ["E(s)", "c2(s)"]
     cli_groups.append([(f"guarded{i}", t, None) for i, t in enumerate(guarded_texts)])
     multi_tasks.append({"fn": "harness.tasks.analyze:cli_multi", "args": {"texts": guarded_texts, "goal_strs": al_goals,
